@@ -89,12 +89,18 @@ Section Example.
       | NRef _ _ names =>
         match names with
         | [] => Err 1302
-        | t :: _ =>
-          if Nat.ltb 1 (count t processing) then Ok None
-          else match lookup t roott with
-               | None => Err 1302
-               | Some (Entry r _) => build f (t :: processing) r
-               end
+        | _ =>
+          (* the first alternative that is not being expanded twice already (after the fix: commit for recursive choices) *)
+          (fix pick (ns : list tname) : res (option ex) :=
+             match ns with
+             | [] => Ok None
+             | t :: r =>
+               if Nat.ltb 1 (count t processing) then pick r
+               else match lookup t roott with
+                    | None => Err 1302
+                    | Some (Entry rt _) => build f (t :: processing) rt
+                    end
+             end) names
         end
       end
     end.
